@@ -25,6 +25,12 @@
 //     dumps a fixed canary set (all statement kinds; plain lists and leaf-lists) and the dump
 //     must equal the one made by a fresh process that handled nothing else ("processed alone");
 //     a difference is bisected to the first round that causes it;
+//   - ToEntry storm: after the namespace look-ups the readers pass a barrier and all call
+//     yang.ToEntry on the AST node of every entry of the shared trees and on every grouping, in the
+//     same order, three times, so that many goroutines ask for the same node at once; the returned
+//     entry (incl. its errors, and whether it is the cached one) is compared with the sequential
+//     answer; pipeline 0 converts each of these nodes once while building the set and reports a
+//     node for which a second call does not return the cached entry (guard of toentry-miss);
 //   - every other round the shared set is a directory set: files on the search path, modules read
 //     by name, import / include statements pinned to revision-dates that are not the loaded
 //     revision; readers resolve prefixes against it (absolute prefixed Find, FindModuleByPrefix);
@@ -584,6 +590,84 @@ func script(ms *yang.Modules, roots map[string]*yang.Entry, r *rand.Rand) (nsFir
 	return
 }
 
+// stormOps: one ToEntry call per AST node that stands behind an entry of the processed trees
+// (module, container, list, leaf, the stand-in leaf of a leaf-list, choice, case, rpc, input,
+// output, notification, anydata, nodes that came in through uses / augment) and per grouping of
+// the modules.  Every reader runs them in the SAME order after a barrier, several times, so that
+// many goroutines ask for the same node at once.
+func stormOps(ms *yang.Modules, roots map[string]*yang.Entry) []op {
+	var out []op
+	for _, name := range modNames(ms) {
+		for _, n := range walk(name, roots[name]) {
+			if n.e.Node != nil {
+				out = append(out, op{Kind: "toentry-node", Mod: n.mod, Path: n.path})
+			}
+		}
+		for _, g := range ms.Modules[name].Grouping {
+			out = append(out, op{Kind: "toentry-grouping", Mod: name, Arg: g.Name})
+		}
+	}
+	return out
+}
+
+// nodeOf: the AST node a ToEntry operation is about.
+func nodeOf(ms *yang.Modules, roots map[string]*yang.Entry, o op) yang.Node {
+	switch o.Kind {
+	case "toentry-node":
+		if e := locate(roots, o.Mod, o.Path); e != nil {
+			return e.Node
+		}
+	case "toentry-grouping":
+		for _, g := range ms.Modules[o.Mod].Grouping {
+			if g.Name == o.Arg {
+				return g
+			}
+		}
+	}
+	return nil
+}
+
+// prime is part of building a set (one goroutine, before any reader): it converts every node of
+// the ToEntry operations once - synthetic nodes (implied cases) and unused groupings were not
+// converted by Process - and records the entry the cache then holds.  Whether the cache really
+// holds it is the guard of allow-list entry toentry-miss: a second call must return the same
+// entry.  The nodes for which it does not are reported.
+func prime(ms *yang.Modules, roots map[string]*yang.Entry, ops []op) (pre map[string]*yang.Entry, problems []string) {
+	pre = map[string]*yang.Entry{}
+	for _, o := range ops {
+		n := nodeOf(ms, roots, o)
+		if n == nil {
+			continue
+		}
+		var first, second *yang.Entry
+		if guard(func() string { first = yang.ToEntry(n); second = yang.ToEntry(n); return "" }) != "" {
+			continue // a node ToEntry cannot take (no module above it): crashes are C01's subject
+		}
+		pre[o.String()] = second
+		if first != second && len(problems) < 5 {
+			problems = append(problems, fmt.Sprintf("GUARD toentry-miss: ToEntry(%s %s) called twice in a row on a processed set returns two different entries: the node is converted again on every call instead of coming from the cache (%s)",
+				n.Kind(), n.NName(), o))
+		}
+	}
+	return
+}
+
+// entryDump: what a caller of ToEntry sees of the entry it got.
+func entryDump(e *yang.Entry) string {
+	if e == nil {
+		return "nil"
+	}
+	var es []string
+	for _, err := range e.Errors {
+		es = append(es, err.Error())
+	}
+	tn := "-"
+	if e.Type != nil {
+		tn = e.Type.Name
+	}
+	return fmt.Sprintf("name=%q kind=%v type=%s def=%q la=%s children=%d errors=%q", e.Name, e.Kind, tn, e.Default, listAttr(e), len(e.Dir), es)
+}
+
 // prefixFor returns the prefix by which the module defining the context node refers to module
 // `target` ("" when it does not import it): exactly the prefixes Find can resolve.
 func prefixFor(ms *yang.Modules, ctx *yang.Entry, target string) string {
@@ -613,9 +697,20 @@ func prefixFor(ms *yang.Modules, ctx *yang.Entry, target string) string {
 }
 
 // run executes one reader operation against a processed set.
-func run(ms *yang.Modules, roots map[string]*yang.Entry, o op) string {
+func run(ms *yang.Modules, roots map[string]*yang.Entry, pre map[string]*yang.Entry, o op) string {
 	return guard(func() string {
 		switch o.Kind {
+		case "toentry-node", "toentry-grouping":
+			n := nodeOf(ms, roots, o)
+			if n == nil {
+				return "HARNESS: node not found"
+			}
+			got := yang.ToEntry(n)
+			where := "cached"
+			if pre != nil && got != pre[o.String()] {
+				where = "NOT-THE-CACHED-ENTRY"
+			}
+			return entryDump(got) + " " + where
 		case "fmbn":
 			m, err := ms.FindModuleByNamespace(o.Arg)
 			if err != nil {
@@ -755,6 +850,8 @@ type roundResult struct {
 	// Canary: not a round but the check at the end of a process (see canarySet)
 	Canary bool `json:"canary,omitempty"`
 	DirSet bool `json:"dir_set,omitempty"` // the shared set was loaded from a directory on the search path
+	// StormOps: AST nodes on which all readers called ToEntry together (stormReps times each)
+	StormOps int `json:"storm_ops"`
 }
 
 func roundSeed(seed int64, round int) int64 { return seed*1000003 + int64(round)*7919 + 17 }
@@ -828,6 +925,9 @@ func doRound(seed int64, round, n, batch int) roundResult {
 		shErrs         []string
 		shRoots        = map[string]*yang.Entry{}
 		nsOps, restOps []op
+		storm          []op
+		shPre          map[string]*yang.Entry
+		primeProblems  []string
 		ops            []op
 		before         snapshot
 		builderPanic   string
@@ -835,6 +935,10 @@ func doRound(seed int64, round, n, batch int) roundResult {
 	start := make(chan struct{})
 	sharedReady := make(chan struct{})
 	got := make([][]string, nr)
+	gotStorm := make([][]string, nr)
+	const stormReps = 3
+	var stormBarrier sync.WaitGroup
+	stormBarrier.Add(nr)
 	gotDump := make([][]string, np)
 	var wg sync.WaitGroup
 	for k := 0; k < np; k++ {
@@ -852,6 +956,8 @@ func doRound(seed int64, round, n, batch int) roundResult {
 						}
 						nsOps, restOps = script(shMS, shRoots, rand.New(rand.NewSource(roundSeed(seed, round)+1)))
 						ops = append(append([]op{}, nsOps...), restOps...)
+						storm = stormOps(shMS, shRoots)
+						shPre, primeProblems = prime(shMS, shRoots, storm)
 						before = snap(shMS, shRoots)
 						return ""
 					})
@@ -868,17 +974,34 @@ func doRound(seed int64, round, n, batch int) roundResult {
 			defer wg.Done()
 			<-sharedReady
 			if builderPanic != "" {
+				stormBarrier.Done()
 				return
 			}
 			pr := rand.New(rand.NewSource(roundSeed(seed, round) + 100 + int64(k)))
-			order := make([]int, 0, len(ops))
-			order = append(order, pr.Perm(len(nsOps))...)
-			for _, i := range pr.Perm(len(restOps)) {
-				order = append(order, len(nsOps)+i)
-			}
 			out := make([]string, len(ops))
-			for _, i := range order {
-				out[i] = run(shMS, shRoots, ops[i])
+			// 1. the namespace look-ups, first-time for everybody
+			for _, i := range pr.Perm(len(nsOps)) {
+				out[i] = run(shMS, shRoots, shPre, ops[i])
+			}
+			// 2. the ToEntry storm: all readers together, same nodes in the same order
+			stormBarrier.Done()
+			stormBarrier.Wait()
+			sout := make([]string, len(storm))
+			for rep := 0; rep < stormReps; rep++ {
+				for i, o := range storm {
+					ans := run(shMS, shRoots, shPre, o)
+					switch {
+					case rep == 0:
+						sout[i] = ans
+					case ans != sout[i] && !strings.Contains(sout[i], " | repetition "):
+						sout[i] = ans + " | repetition 0 gave: " + sout[i]
+					}
+				}
+			}
+			gotStorm[k] = sout
+			// 3. everything else, in an order of its own
+			for _, i := range pr.Perm(len(restOps)) {
+				out[len(nsOps)+i] = run(shMS, shRoots, shPre, ops[len(nsOps)+i])
 			}
 			got[k] = out
 		}(k)
@@ -908,9 +1031,24 @@ func doRound(seed int64, round, n, batch int) roundResult {
 		for _, name := range modNames(refMS) {
 			refRoots[name] = yang.ToEntry(refMS.Modules[name])
 		}
+		refPre, _ := prime(refMS, refRoots, storm)
+		for i, o := range storm {
+			want := run(refMS, refRoots, refPre, o)
+			if strings.HasPrefix(want, "HARNESS") || strings.HasPrefix(want, "PANIC") {
+				res.SeqAnomalies++
+			}
+			for k := 0; k < nr; k++ {
+				res.Evals += stormReps
+				if gotStorm[k][i] != want && len(res.Problems) < 20 {
+					res.Problems = append(res.Problems, fmt.Sprintf("reader %d: ToEntry storm, %s: concurrent answer %q, sequential answer %q", k, o, gotStorm[k][i], want))
+				}
+			}
+		}
+		res.Problems = append(res.Problems, primeProblems...)
+		res.StormOps = len(storm)
 		want := make([]string, len(ops))
 		for i, o := range ops {
-			want[i] = run(refMS, refRoots, o)
+			want[i] = run(refMS, refRoots, refPre, o)
 			switch {
 			case strings.HasPrefix(want[i], "GUARD"):
 				// a guard of the allow-list fires on an input the property speaks about
@@ -966,7 +1104,7 @@ func showRound(seed int64, round, batch int) {
 	}
 	a, b := script(ms, roots, rand.New(rand.NewSource(roundSeed(seed, round)+1)))
 	for _, o := range append(a, b...) {
-		fmt.Printf("%-60s -> %s\n", o, run(ms, roots, o))
+		fmt.Printf("%-60s -> %s\n", o, run(ms, roots, nil, o))
 	}
 }
 
@@ -1227,7 +1365,7 @@ func main() {
 		"the concurrent phase first in a cold process, the sequential reference afterwards; evaluations = reader answers and pipeline dumps compared with the sequential run"
 	distinct := lib.NewDistinct()
 	var mu sync.Mutex
-	var nodes, ops, firstNS, mods, withErr, roundsDone, unexpected, anomalies, canaries, dirSets int64
+	var nodes, ops, firstNS, mods, withErr, roundsDone, unexpected, anomalies, canaries, dirSets, stormNodes int64
 	type job struct{ from, to int }
 	jobs := make(chan job)
 	var wg sync.WaitGroup
@@ -1266,6 +1404,7 @@ func main() {
 					if rr.DirSet {
 						dirSets++
 					}
+					stormNodes += int64(rr.StormOps)
 					anomalies += int64(rr.SeqAnomalies)
 					if rr.Nontrivial {
 						distinct.Add(rr.SharedHash)
@@ -1353,12 +1492,14 @@ func main() {
 		res.Distribution["avg_modules_per_shared_set"] = float64(mods) / float64(roundsDone)
 		res.Distribution["avg_nodes_per_shared_set"] = float64(nodes) / float64(roundsDone)
 		res.Distribution["avg_reader_ops_per_reader"] = float64(ops) / float64(roundsDone)
+		res.Distribution["avg_ast_nodes_per_round_on_which_all_readers_call_ToEntry_together_3_times"] = float64(stormNodes) / float64(roundsDone)
 		res.Distribution["avg_first_time_namespace_lookups_per_reader"] = float64(firstNS) / float64(roundsDone)
 	}
 	res.Notes = append(res.Notes,
 		"supporting run, not the proof: schedules are sampled; the race detector reports only races that happen in an executed schedule",
 		"reader paths: only existing nodes; the guards of the allow-list (allow.json) are asserted after every round",
 		"independence: after its last round every child process dumps a fixed canary module set (all statement kinds, plain lists and leaf-lists); the dump must equal the one a fresh process makes of the same set alone; a difference is bisected to the first round that causes it",
+		"ToEntry storm: after the namespace look-ups all readers pass a barrier and call yang.ToEntry on the AST node behind every entry of the processed trees (modules, containers, lists, leaves, stand-in leaves of leaf-lists, choices, cases, rpc parts, notifications, nodes from uses/augment) and on every grouping, same order, three times; the answer (name, kind, type, default, list attributes, children, errors of the returned entry, and whether it is the entry the cache held after the set was built) is compared with the sequential answer; the builder reports a node for which two consecutive ToEntry calls return different entries (guard of toentry-miss)",
 		"directory sets: every other shared set (and a third of the private sets) is written to a directory that stays on the search path and is loaded by Read; its import / include statements carry revision-dates that are not the loaded revision; readers resolve prefixes (absolute prefixed Find, FindModuleByPrefix) against it",
 		"restrictions with the keywords min / max directly on built-in types (range on all integer types and decimal64, length on string and binary) occur in every set, so that the package-level range tables are the parents in concurrent pipelines",
 		"cold start: each child process begins with the concurrent phase (nothing converted before); statement kinds are introduced one per round within a process, so first-use writes of process-wide tables meet concurrent goroutines",
